@@ -279,8 +279,10 @@ func (e *Expr) toks(out *[]tagTok, first bool) {
 		k := e.Kids[0]
 		if isLeaf(k) || (k.Kind == KNeg && isLeaf(k.Kids[0])) {
 			k.toks(out, true)
-		} else if k.Kind == KGroup && k.Style%3 == 1 && (k.Mod == "?" || k.Mod == "*") {
-			// a capture right in front of a bracket group: `@[ x ]`, `@{ x }` (no parentheses in between; C14-r12m1)
+		} else if e.T == "bare" && k.Kind == KGroup && k.Style%3 == 1 && (k.Mod == "?" || k.Mod == "*") {
+			// a capture right in front of a bracket group: `@[ x ]`, `@{ x }` (no parentheses in between; C14-r12m1).
+			// Only where a check asks for it (C14's graft, grammars that are printed and not parsed): the library
+			// treats an empty match of `@[ x ]` and of `@( [ x ] )` differently, and the reference parser models the latter.
 			k.toks(out, true)
 		} else {
 			add("(")
